@@ -18,6 +18,7 @@ def fact_f4(root, repo, work, hexe):
     return True, '', extra
 
 CONF = {
+    'coq_sample': 15,   # cases re-evaluated inside Coq by vm_compute against the extracted runner's output
     'pre': [fact_f4],
     'interesting': ['repeat-after-traffic', 'nocopy', 'shared-reader', 'concurrent', 'race-detector'],
     'rule': 'Histories over 1-3 input packets (checksummed Ethernet/IPv4|IPv6/TCP|UDP|ICMP|GRE stacks built by the harness, packet literals of layers/*_test.go parsed at run time, truncations, bit flips, non-Ethernet first layers): decode with any of the 16 option sets, unrelated traffic, decode again (signatures must coincide), every read-only accessor (Layers, String, Dump, VerifyChecksums, flows, GoString, LayerString/LayerDump) on an eager NoCopy packet, and bursts of concurrent readers/decoders. Input buffers live in mmap pages that are write-protected while the library runs, so any store into the caller\'s or the packet\'s buffer - even of an equal value - is observed as a fault.',
